@@ -353,6 +353,51 @@ fn c12_seq_under_lock_response() {
     std::mem::forget(s);
 }
 
+//@ harness: c12_seq_under_lock_3
+//@ property: C12
+//@ obligation: H-C12-c
+//@ tier: thorough
+//@ encodes: DebugSession::{send_event_raw, send_response_raw} against concurrent senders
+//@ symbolic: adversary schedule: 0..2 complete foreign sends at each of three lock acquisitions, at most 4 in total; session sends event, response, event
+//@ bounds: 3 session sends, <= 4 foreign sends; context switches at lock acquisition only
+//@ oracle: sequence numbers strictly increase in wire order for every schedule
+//@ stubs: as c12_seq_under_lock_response
+//@ assumes: as c12_seq_under_lock_event
+//@ timeout: 1800
+#[kani::proof]
+#[kani::stub(std::backtrace::Backtrace::capture, no_backtrace)]
+#[kani::stub(std::hash::RandomState::new, fixed_random_state)]
+#[kani::stub(crate::dap::yadap::protocol::send_event, stub_send_event)]
+#[kani::stub(serde_json::to_value, stub_to_value_carry)]
+#[kani::stub(std::sync::Mutex::lock, stub_lock)]
+#[kani::unwind(9)]
+fn c12_seq_under_lock_3() {
+    unsafe {
+        WIRE = [NOMSG; WMAX];
+        WIRE_N = 0;
+        ADV_SENT = 0;
+    }
+    let io: Arc<Mutex<dyn DapTransport>> = Arc::new(Mutex::new(RecTransport));
+    let mut s = DebugSession::new(io);
+    unsafe {
+        ADV_SEQ = Some(s.server_seq.clone());
+        ADV_BUDGET = 4;
+    }
+    let q = mk_req(kani::any(), b'c');
+    let r1 = s.send_event_raw("stopped", None);
+    let r2 = s.send_success(&q);
+    let r3 = s.send_event_raw("continued", None);
+    bsv!(r1.is_ok() && r2.is_ok() && r3.is_ok(), "sends succeed");
+    let n = unsafe { WIRE_N };
+    bsv!(n == 3 + unsafe { ADV_SENT } as usize, "every send reaches the wire once");
+    bsv!(wire_increasing(), "seq increases in wire order under concurrent output forwarding");
+    kani::cover!(n == 7, "four foreign sends interleaved");
+    kani::cover!(true, "BSV-END");
+    std::mem::forget(q);
+    std::mem::forget((r1, r2, r3));
+    std::mem::forget(s);
+}
+
 /// the response's number travels inside the Value so that it is recorded at write time
 fn stub_to_value_carry<T: Serialize>(value: T) -> Result<Value, serde_json::Error> {
     let mut seq = -1i64;
